@@ -316,7 +316,6 @@ func runDisposeHist(c caseIn) out {
 		flushBlocked()
 	}
 	final := errIdx(d.GetErrors())
-	again := errIdx(d.Close().Errors)
 	mu.Lock()
 	rl := append([]int{}, runlog...)
 	mu.Unlock()
@@ -329,6 +328,15 @@ func runDisposeHist(c caseIn) out {
 		} else {
 			resOut[i] = nil
 		}
+	}
+	again := final
+	if anyClosed && !hang {
+		again = errIdx(d.Close().Errors) // a later Close: must report the recorded errors and run nothing
+		mu.Lock()
+		if len(runlog) != len(rl) {
+			rl = append([]int{}, runlog...)
+		}
+		mu.Unlock()
 	}
 	o["runlog"], o["results"], o["errors"], o["again"], o["sched"], o["adds"], o["closers"] = rl, resOut, final, again, sched, adds, nClosers
 	o["closed"] = d.IsClosed()
@@ -557,11 +565,23 @@ func runTunnelSeq(c caseIn) out {
 			w.mgr.OnTunnelClosed("t1", "m1", "peer", 0, 0, 0)
 		}
 	}
+	live := c.Started
+	for _, e := range c.Events {
+		if e.Op == "start" {
+			live = true
+		}
+	}
+	if live && !first { // let the tunnel's own goroutines finish
+		deadline := time.Now().Add(2 * time.Second)
+		for w.t.GetState() != 3 && time.Now().Before(deadline) {
+			time.Sleep(100 * time.Microsecond)
+		}
+	}
 	w.observe(o, expect)
 	w.cancel()
 	w.mgr.Close()
 	if !first {
-		tunnelPredicate(o, c.Started, "sequential closes")
+		tunnelPredicate(o, live, "sequential closes")
 	}
 	if left := leakCheck(before); len(left) > 0 {
 		o["leak"] = left
@@ -584,6 +604,12 @@ func runTunnelRace(c caseIn) out {
 			} else {
 				allNotify = false
 			}
+		}
+		if c.Own && !c.Started { // the peer-notification path closes with reason peer_closed (no notification)
+			allNotify = false
+		}
+		if c.Own && c.Started { // the copy loop closes with normal / local_closed / error (all notify)
+			noneNotify = false
 		}
 		if !allNotify {
 			expect = 0
